@@ -45,3 +45,16 @@ BENIGN += [
          old="    if isinstance(obj, JSONPathNodeList) and len(obj) == 0:\n        return False\n    if obj is NOTHING:\n        return False",
          new="    if obj is NOTHING:\n        return False\n    if isinstance(obj, JSONPathNodeList):\n        return not obj.empty()"),
 ]
+
+PARSE = S + "parse.py"
+
+BENIGN += [
+    dict(id="c09-escape-table-as-dict", props=["C09"], file=PARSE,
+         old='        if ch == \'"\':\n            return \'"\', index\n        if ch == "\\\\":\n            return "\\\\", index\n        if ch == "/":\n            return "/", index\n        if ch == "b":\n            return "\\x08", index\n        if ch == "f":\n            return "\\x0c", index\n        if ch == "n":\n            return "\\n", index\n        if ch == "r":\n            return "\\r", index\n        if ch == "t":\n            return "\\t", index\n',
+         new='        simple = {\'"\': \'"\', "\\\\": "\\\\", "/": "/", "b": "\\x08", "f": "\\x0c", "n": "\\n", "r": "\\r", "t": "\\t"}\n        if ch in simple:\n            return simple[ch], index\n'),
+    dict(id="c09-pair-arithmetic-linear", props=["C09"], file=PARSE,
+         old="            codepoint = 0x10000 + (\n                ((codepoint & 0x03FF) << 10) | (low_surrogate & 0x03FF)\n            )",
+         new="            codepoint = 0x10000 + (codepoint - 0xD800) * 0x400 + (low_surrogate - 0xDC00)"),
+    dict(id="c09-surrogate-predicate-chained", props=["C09"], file=PARSE,
+         old="        return codepoint >= 0xD800 and codepoint <= 0xDBFF", new="        return 0xD800 <= codepoint <= 0xDBFF"),
+]
